@@ -20,8 +20,11 @@ abbrev Safe1 (s : Forest) : Prop := safe1 false s = true
 abbrev Safe2 (s : Forest) : Prop := noColoursInOmpPar false s = true
 abbrev Safe (s : Forest) : Prop := Safe1 s ∧ Safe2 s
 
-/-- The full statement: for schedules as built by PSyclone (no directives yet), every accepted history leads to
-a state satisfying clause 1, and every such state that passes generation also satisfies clause 2. -/
+/-- The full statement: for schedules as built by PSyclone (no directives yet), every accepted history (any
+transformations, any targets, any option values except "force") leads to a state satisfying clause 1, and every such
+state that passes generation also satisfies clause 2.  FALSE of the pinned code because of the known finding
+C23-sequential-generic-omp (`C23_fails_sequential_generic_omp`); `C23_holds_partial` proves it under the side condition
+`Step.seqOk` that excludes exactly that class. -/
 def C23_statement (T : Tables) : Prop :=
   ∀ (s0 s : Forest) (h : List Step), noDirs s0 = true → run T s0 h = some s →
     Safe1 s ∧ (genOK T s = true → Safe s)
@@ -272,9 +275,12 @@ theorem splitSibs_inv {T : Tables} {p : Bool} : ∀ (n : Nat) (f t r : Forest),
       exact ⟨⟨hi.1, this.1⟩, this.2⟩
 
 /-- what an accepted loop-parallelising transformation did -/
-theorem parLoopG_some {T : Tables} {t : LoopTrans} {c : Ctx} {f f' : Forest} (h : parLoopG T t c f = some f') :
-    ∃ ty fd b nx, f = loop ty fd b nx ∧ f' = dir t.dirKind (loop ty fd b nil) nx ∧
-      (ty = ltColour ∨ hasInc T b = false) ∧ ty ≠ ltColours ∧ ty ≠ ltNull := by
+theorem parLoopG_some {T : Tables} {t : LoopTrans} {o : LoopOpts} {c : Ctx} {f f' : Forest}
+    (h : parLoopG T t o c f = some f') :
+    ∃ ty fd b nx, f = loop ty fd b nx ∧ f' = dir (t.emitted o) (loop ty fd b nil) nx ∧
+      (t.isDynamo = true → (ty = ltColour ∨ hasInc T b = false)) ∧
+      (t.usesDA = true → o.sequential = false → (ty = ltColour ∨ hasInc T b = false)) ∧
+      (o.sequential = false → ty ≠ ltColours) ∧ ty ≠ ltNull := by
   cases f with
   | loop ty fd b nx =>
     simp only [parLoopG] at h
@@ -283,12 +289,24 @@ theorem parLoopG_some {T : Tables} {t : LoopTrans} {c : Ctx} {f f' : Forest} (h 
     split at h; · simp at h
     split at h; · simp at h
     split at h; · simp at h
-    rename_i h1 h2 _ h4 _
-    refine ⟨ty, fd, b, nx, rfl, by simpa using h.symm, ?_, by simpa using h2, by simpa using h1⟩
-    simp only [bne_iff_ne, ne_eq, Bool.and_eq_true, not_and, Bool.not_eq_true] at h4
-    by_cases hc : ty = ltColour
-    · exact Or.inl hc
-    · exact Or.inr (h4 hc)
+    split at h; · simp at h
+    split at h; · simp at h
+    rename_i h1 _ h3 _ h5 h6 _
+    refine ⟨ty, fd, b, nx, rfl, by simpa using h.symm, ?_, ?_, ?_, by simpa using h1⟩
+    · intro hd
+      simp only [hd, bne_iff_ne, ne_eq, Bool.and_eq_true, Bool.true_and, not_and,
+        Bool.not_eq_true] at h5
+      by_cases hc : ty = ltColour
+      · exact Or.inl hc
+      · exact Or.inr (h5 (by simpa using hc))
+    · intro hu hs
+      simp only [hu, hs, bne_iff_ne, ne_eq, Bool.and_eq_true, Bool.true_and, not_and,
+        Bool.not_eq_true, Bool.not_false] at h6
+      by_cases hc : ty = ltColour
+      · exact Or.inl hc
+      · exact Or.inr (h6 (by simpa using hc))
+    · intro hs
+      simpa [hs] using h3
   | _ => simp [parLoopG] at h
 
 theorem colourG_some {c : Ctx} {f f' : Forest} (h : colourG c f = some f') :
@@ -307,10 +325,10 @@ theorem colourG_some {c : Ctx} {f f' : Forest} (h : colourG c f = some f') :
     exact ⟨fd, b, nx, rfl, by simpa using h.symm, by simpa using h4, by simpa using h2⟩
   | _ => simp [colourG] at h
 
-theorem regionG_some {t : RegionTrans} {i0 : Nat} {targets : List Nat} {c : Ctx} {f f' : Forest}
-    (h : regionG t i0 targets c f = some f') :
+theorem regionG_some {t : RegionTrans} {o : RegionOpts} {i0 : Nat} {targets : List Nat} {c : Ctx} {f f' : Forest}
+    (h : regionG t o i0 targets c f = some f') :
     ∃ taken rest, splitSibs targets.length f = some (taken, rest) ∧ f' = dir t.dirKind taken rest ∧
-      hasHalo taken = false ∧ (t = .ompParallel → c.inOmp = false) := by
+      (t = .ompParallel → c.inOmp = false) := by
   simp only [regionG] at h
   split at h; · simp at h
   split at h; · simp at h
@@ -320,13 +338,12 @@ theorem regionG_some {t : RegionTrans} {i0 : Nat} {targets : List Nat} {c : Ctx}
   split at h; · simp at h
   split at h; · simp at h
   split at h; · simp at h
-  rename_i h3 _ _
-  refine ⟨taken, rest, hs, by simpa using h.symm, by simpa using h3, ?_⟩
+  refine ⟨taken, rest, hs, by simpa using h.symm, ?_⟩
   intro ht
   subst ht
   simpa using h1
 
-theorem keepsInc_parLoopG (T : Tables) (t : LoopTrans) : KeepsInc T (parLoopG T t) := by
+theorem keepsInc_parLoopG (T : Tables) (t : LoopTrans) (o : LoopOpts) : KeepsInc T (parLoopG T t o) := by
   intro c f f' h
   obtain ⟨ty, fd, b, nx, rfl, rfl, -⟩ := parLoopG_some h
   simp [hasInc]
@@ -336,20 +353,50 @@ theorem keepsInc_colourG (T : Tables) : KeepsInc T colourG := by
   obtain ⟨fd, b, nx, rfl, rfl, -⟩ := colourG_some h
   simp [hasInc]
 
-theorem keepsInc_regionG (T : Tables) (t : RegionTrans) (i0 : Nat) (tg : List Nat) :
-    KeepsInc T (regionG t i0 tg) := by
+theorem keepsInc_regionG (T : Tables) (t : RegionTrans) (o : RegionOpts) (i0 : Nat) (tg : List Nat) :
+    KeepsInc T (regionG t o i0 tg) := by
   intro c f f' h
   obtain ⟨taken, rest, hs, rfl, -⟩ := regionG_some h
   simp [hasInc, splitSibs_hasInc (T := T) _ _ _ _ hs]
 
-theorem preserves_parLoopG (T : Tables) (t : LoopTrans) : Preserves T (parLoopG T t) := by
+/-- Side condition of the partial theorem: options["sequential"] is not passed to a *generic* OpenMP loop
+transformation (psyir `OMPLoopTrans` / `OMPParallelLoopTrans`).  Decidable; satisfied by every history that
+only uses the LFRic-specific OpenMP transformations and/or ACCLoopTrans with any options. -/
+def Step.seqOk : Step → Bool
+  | .parLoop t o _ => !(t.isGenericOmp && o.sequential)
+  | _ => true
+
+/-- a loop-parallelising transformation only emits a *parallel* directive on a loop that is over a single colour
+or has no INC/READINC argument - provided "sequential" is not given to a generic OpenMP transformation -/
+theorem parLoopG_parallel_ok {T : Tables} {t : LoopTrans} {o : LoopOpts} {c : Ctx} {ty : LoopType} {fd : Bool}
+    {b nx : Forest} {f' : Forest} (hs : (t.isGenericOmp && o.sequential) = false)
+    (h : parLoopG T t o c (loop ty fd b nx) = some f') (hp : isParLoopDir (t.emitted o) = true) :
+    ty = ltColour ∨ hasInc T b = false := by
+  obtain ⟨ty', fd', b', nx', heq, -, hd, hu, -⟩ := parLoopG_some h
+  cases heq
+  cases t with
+  | ompParallelDo => exact hd rfl
+  | ompDo => exact hd rfl
+  | accLoop =>
+    cases hseq : o.sequential with
+    | false => exact hu rfl hseq
+    | true => simp [LoopTrans.emitted, hseq, dAccLoopSeq, isParLoopDir] at hp
+  | genOmpDo => exact hu rfl (by simpa [LoopTrans.isGenericOmp] using hs)
+  | genOmpParallelDo => exact hu rfl (by simpa [LoopTrans.isGenericOmp] using hs)
+
+theorem preserves_parLoopG (T : Tables) (t : LoopTrans) (o : LoopOpts)
+    (hs : (t.isGenericOmp && o.sequential) = false) : Preserves T (parLoopG T t o) := by
   intro c f f' hi h
-  obtain ⟨ty, fd, b, nx, rfl, rfl, hok, -⟩ := parLoopG_some h
+  obtain ⟨ty, fd, b, nx, rfl, rfl, -⟩ := parLoopG_some h
+  have hok := fun hp => parLoopG_parallel_ok hs h hp
   simp only [inv, Bool.and_eq_true, Bool.or_eq_true] at hi ⊢
   refine ⟨⟨⟨?_, hi.1.2⟩, trivial⟩, hi.2⟩
-  rcases hok with rfl | hno
-  · simp
-  · simp [hno]
+  cases hp : isParLoopDir (t.emitted o) with
+  | false => simp
+  | true =>
+    rcases hok hp with rfl | hno
+    · simp
+    · simp [hno]
 
 theorem preserves_colourG (T : Tables) : Preserves T colourG := by
   intro c f f' hi h
@@ -361,8 +408,8 @@ theorem preserves_colourG (T : Tables) : Preserves T colourG := by
   · simp [ltCells, ltColour] at h1
   · right; simpa [hasInc] using h1
 
-theorem preserves_regionG (T : Tables) (t : RegionTrans) (i0 : Nat) (tg : List Nat) :
-    Preserves T (regionG t i0 tg) := by
+theorem preserves_regionG (T : Tables) (t : RegionTrans) (o : RegionOpts) (i0 : Nat) (tg : List Nat) :
+    Preserves T (regionG t o i0 tg) := by
   intro c f f' hi h
   obtain ⟨taken, rest, hs, rfl, -⟩ := regionG_some h
   obtain ⟨h1, h2⟩ := splitSibs_inv (T := T) _ _ _ _ hs hi
@@ -371,47 +418,53 @@ theorem preserves_regionG (T : Tables) (t : RegionTrans) (i0 : Nat) (tg : List N
   cases t <;> simpa [RegionTrans.dirKind, isParLoopDir, dOmpParallel, dAccParallel, dAccKernels]
     using inv_false_of_inv h1
 
-theorem step_inv {T : Tables} {s s' : Forest} {st : Step} (hi : inv T false s = true)
+theorem step_inv {T : Tables} {s s' : Forest} {st : Step} (hok : st.seqOk = true) (hi : inv T false s = true)
     (h : step T s st = some s') : inv T false s' = true := by
   cases st with
   | colour i => exact atIdx_inv (keepsInc_colourG T) (preserves_colourG T) s i Ctx.top s' hi h
-  | parLoop t i => exact atIdx_inv (keepsInc_parLoopG T t) (preserves_parLoopG T t) s i Ctx.top s' hi h
-  | region t tg =>
+  | parLoop t o i =>
+    have hs : (t.isGenericOmp && o.sequential) = false := by
+      simp only [Step.seqOk, Bool.not_eq_true'] at hok
+      exact hok
+    exact atIdx_inv (keepsInc_parLoopG T t o) (preserves_parLoopG T t o hs) s i Ctx.top s' hi h
+  | region t o tg =>
     cases tg with
     | nil => simp [step] at h
     | cons i0 rest =>
-      exact atIdx_inv (keepsInc_regionG T t i0 _) (preserves_regionG T t i0 _) s i0 Ctx.top s' hi h
+      exact atIdx_inv (keepsInc_regionG T t o i0 _) (preserves_regionG T t o i0 _) s i0 Ctx.top s' hi h
 
-theorem run_inv {T : Tables} : ∀ (h : List Step) (s s' : Forest), inv T false s = true →
-    run T s h = some s' → inv T false s' = true := by
+theorem run_inv {T : Tables} : ∀ (h : List Step) (s s' : Forest), (∀ st ∈ h, st.seqOk = true) →
+    inv T false s = true → run T s h = some s' → inv T false s' = true := by
   intro h
   induction h with
-  | nil => intro s s' hi hr; simp [run] at hr; subst hr; exact hi
+  | nil => intro s s' _ hi hr; simp [run] at hr; subst hr; exact hi
   | cons st rest ih =>
-    intro s s' hi hr
+    intro s s' hok hi hr
     simp only [run] at hr
     split at hr
     · simp at hr
     · rename_i s1 hs1
-      exact ih s1 s' (step_inv hi hs1) hr
+      exact ih s1 s' (fun x hx => hok x (List.mem_cons_of_mem _ hx))
+        (step_inv (hok st (List.mem_cons_self ..)) hi hs1) hr
 
-theorem runSkip_inv {T : Tables} : ∀ (h : List Step) (s : Forest), inv T false s = true →
-    inv T false (runSkip T s h).1 = true := by
+theorem runSkip_inv {T : Tables} : ∀ (h : List Step) (s : Forest), (∀ st ∈ h, st.seqOk = true) →
+    inv T false s = true → inv T false (runSkip T s h).1 = true := by
   intro h
   induction h with
-  | nil => intro s hi; simpa [runSkip] using hi
+  | nil => intro s _ hi; simpa [runSkip] using hi
   | cons st rest ih =>
-    intro s hi
+    intro s hok hi
     simp only [runSkip]
     split
-    · exact ih s hi
+    · exact ih s (fun x hx => hok x (List.mem_cons_of_mem _ hx)) hi
     · rename_i s1 hs1
-      exact ih s1 (step_inv hi hs1)
+      exact ih s1 (fun x hx => hok x (List.mem_cons_of_mem _ hx))
+        (step_inv (hok st (List.mem_cons_self ..)) hi hs1)
 
 /-! ## The property -/
 
 /-- The live tables recognise both incrementing access modes (INC and READINC).  This is the proof obligation that
-fails to compile when `PSyLoop.has_inc_arg` ignores READINC (the pinned, unfixed code). -/
+fails to compile when `PSyLoop.has_inc_arg` ignores READINC. -/
 theorem C23_tables_inc : ∀ a, Spec.incrementing a = true → Gen.tables.incAcc a = true := by
   intro a h
   simp only [Spec.incrementing, Bool.or_eq_true, beq_iff_eq] at h
@@ -423,55 +476,99 @@ theorem C23_tables_members : Gen.accINC = 4 ∧ Gen.accREADINC = 5 ∧ Gen.accSU
 /-- PSyclone's list of discontinuous function-space names agrees with the specification-level table. -/
 theorem C23_tables_spaces : ∀ i, i < 40 → Gen.fsDisc i = Spec.fsDisc i := by decide
 
-/-- **Invariant (clause 1), any tables.**  From any state satisfying the invariant, every accepted history
-ends in a state in which every parallel loop that increments shared DoFs is a single-colour loop. -/
+/-- The statement restricted to histories that satisfy the side condition `Step.seqOk`. -/
+def C23_statement_partial (T : Tables) : Prop :=
+  ∀ (s0 s : Forest) (h : List Step), noDirs s0 = true → (∀ st ∈ h, st.seqOk = true) → run T s0 h = some s →
+    Safe1 s ∧ (genOK T s = true → Safe s)
+
+/-- **Invariant (clause 1), any tables, any option values** (side condition: no "sequential" on a generic OpenMP
+loop transformation).  From any state satisfying the invariant, every accepted history ends in a state in which every
+loop below a parallel loop directive (omp do, omp parallel do, acc loop without `seq`) that increments shared DoFs is a
+single-colour loop. -/
 theorem C23_invariant_general (T : Tables) (hT : ∀ a, Spec.incrementing a = true → T.incAcc a = true)
-    (s0 s : Forest) (h : List Step) (h0 : inv T false s0 = true) (hr : run T s0 h = some s) : Safe1 s :=
-  safe1_of_inv hT (run_inv h s0 s h0 hr)
+    (s0 s : Forest) (h : List Step) (hok : ∀ st ∈ h, st.seqOk = true) (h0 : inv T false s0 = true)
+    (hr : run T s0 h = some s) : Safe1 s :=
+  safe1_of_inv hT (run_inv h s0 s hok h0 hr)
 
 /-- **Invariant (clause 1) for the live tables**, from any freshly built schedule. -/
-theorem C23_invariant (s0 s : Forest) (h : List Step) (h0 : noDirs s0 = true)
+theorem C23_invariant (s0 s : Forest) (h : List Step) (hok : ∀ st ∈ h, st.seqOk = true) (h0 : noDirs s0 = true)
     (hr : run Gen.tables s0 h = some s) : Safe1 s :=
-  C23_invariant_general Gen.tables C23_tables_inc s0 s h (inv_of_noDirs h0) hr
+  C23_invariant_general Gen.tables C23_tables_inc s0 s h hok (inv_of_noDirs h0) hr
 
 /-- The same for scripts that catch refusals and carry on (refused steps leave the schedule unchanged). -/
-theorem C23_invariant_skip (s0 : Forest) (h : List Step) (h0 : noDirs s0 = true) :
+theorem C23_invariant_skip (s0 : Forest) (h : List Step) (hok : ∀ st ∈ h, st.seqOk = true) (h0 : noDirs s0 = true) :
     Safe1 (runSkip Gen.tables s0 h).1 :=
-  safe1_of_inv C23_tables_inc (runSkip_inv h s0 (inv_of_noDirs h0))
+  safe1_of_inv C23_tables_inc (runSkip_inv h s0 hok (inv_of_noDirs h0))
 
-/-- **Clause 2**: whatever the history, a state that passes (the modelled part of) generation has no loop over
-colours inside an OpenMP parallel region. -/
+/-- **Clause 2**: whatever the history and options, a state that passes (the modelled part of) generation has no loop
+over colours inside an OpenMP parallel region. -/
 theorem C23_generated (T : Tables) (s : Forest) (hg : genOK T s = true) : Safe2 s := by
   simp only [genOK, Bool.and_eq_true] at hg
   exact hg.1
 
-/-- The full statement holds for the live (fixed) code. -/
-theorem C23_holds : C23_statement Gen.tables := by
-  intro s0 s h h0 hr
-  exact ⟨C23_invariant s0 s h h0 hr, fun hg => ⟨C23_invariant s0 s h h0 hr, C23_generated _ s hg⟩⟩
+/-- The statement holds for the live code for all histories and all option values satisfying the side condition. -/
+theorem C23_holds_partial : C23_statement_partial Gen.tables := by
+  intro s0 s h h0 hok hr
+  exact ⟨C23_invariant s0 s h hok h0 hr, fun hg => ⟨C23_invariant s0 s h hok h0 hr, C23_generated _ s hg⟩⟩
 
-/-- **Refusal is complete**: each of the three loop-parallelising transformations refuses every loop that is not
-a single-colour loop and for which `has_inc_arg` holds, wherever it is in the tree. -/
-theorem C23_refusal_complete (T : Tables) (t : LoopTrans) (c : Ctx) (ty : LoopType) (fd : Bool) (b nx : Forest)
-    (hty : ty ≠ ltColour) (hinc : hasInc T b = true) : parLoopG T t c (loop ty fd b nx) = none := by
-  cases hp : parLoopG T t c (loop ty fd b nx) with
+/-- one loop over cells, kernel with `gh_inc` on w0 (id 5) and `gh_read` on w3 (id 0) -/
+def exInc : Forest := loop ltCells false (kern true [(4, 5), (1, 0)] nil) nil
+/-- the same with `gh_readinc` -/
+def exReadInc : Forest := loop ltCells false (kern true [(5, 5), (1, 0)] nil) nil
+/-- a discontinuous kernel -/
+def exDisc : Forest := loop ltCells true (kern true [(3, 0), (1, 5)] nil) nil
+
+/-- **Known finding C23-sequential-generic-omp**: the full statement is false of the (faithful) model, because the
+generic `OMPLoopTrans`/`OMPParallelLoopTrans` honour options["sequential"] (inherited `ParallelLoopTrans.validate`
+skips the colours check and the dependence analysis) although the directive they emit is parallel.  Witness: the
+uncoloured READINC loop, generic OMPLoopTrans with sequential=True, then a parallel region: accepted, passes the modelled
+generation checks, not Safe. -/
+theorem C23_fails_sequential_generic_omp : ¬ C23_statement Gen.tables := by
+  intro h
+  have := (h exReadInc (dir dOmpParallel (dir dOmpDo exReadInc nil) nil)
+    [.parLoop .genOmpDo { sequential := true } 0, .region .ompParallel {} [0]] (by decide) (by decide)).1
+  revert this
+  decide
+
+/-- **Refusal is complete**: a loop that is not a single-colour loop and for which `has_inc_arg` holds is refused by
+the LFRic-specific transformations whatever the options, and by ACCLoopTrans and the generic transformations unless
+"sequential" is given. -/
+theorem C23_refusal_complete (T : Tables) (t : LoopTrans) (o : LoopOpts) (c : Ctx) (ty : LoopType) (fd : Bool)
+    (b nx : Forest) (ht : t.isDynamo = true ∨ o.sequential = false)
+    (hty : ty ≠ ltColour) (hinc : hasInc T b = true) : parLoopG T t o c (loop ty fd b nx) = none := by
+  cases hp : parLoopG T t o c (loop ty fd b nx) with
   | none => rfl
   | some f' =>
-    obtain ⟨ty', fd', b', nx', heq, -, hok, -⟩ := parLoopG_some hp
+    obtain ⟨ty', fd', b', nx', heq, -, hd, hu, -⟩ := parLoopG_some hp
     cases heq
-    rcases hok with h | h
+    have : ty = ltColour ∨ hasInc T b = false := by
+      rcases ht with ht | ht
+      · exact hd ht
+      · cases t with
+        | ompParallelDo => exact hd rfl
+        | ompDo => exact hd rfl
+        | accLoop => exact hu rfl ht
+        | genOmpDo => exact hu rfl ht
+        | genOmpParallelDo => exact hu rfl ht
+    rcases this with h | h
     · exact absurd h hty
     · simp [hinc] at h
 
-/-- A loop over colours is never parallelised. -/
-theorem C23_colours_never_parallel (T : Tables) (t : LoopTrans) (c : Ctx) (fd : Bool) (b nx : Forest) :
-    parLoopG T t c (loop ltColours fd b nx) = none := by
-  cases hp : parLoopG T t c (loop ltColours fd b nx) with
+/-- With "sequential" ACCLoopTrans accepts such a loop, but the directive it emits carries `seq`, which is not a
+parallel loop directive; without "sequential" every directive emitted is parallel (whatever gang/vector say). -/
+theorem C23_sequential_acc_is_serial (o : LoopOpts) :
+    isParLoopDir (LoopTrans.emitted .accLoop o) = !o.sequential := by
+  cases hs : o.sequential <;> simp [LoopTrans.emitted, hs, LoopTrans.dirKind, dAccLoop, dAccLoopSeq, isParLoopDir]
+
+/-- A loop over colours is never given a loop directive unless "sequential" is passed. -/
+theorem C23_colours_never_parallel (T : Tables) (t : LoopTrans) (o : LoopOpts) (c : Ctx) (fd : Bool) (b nx : Forest)
+    (hs : o.sequential = false) : parLoopG T t o c (loop ltColours fd b nx) = none := by
+  cases hp : parLoopG T t o c (loop ltColours fd b nx) with
   | none => rfl
   | some f' =>
-    obtain ⟨ty', fd', b', nx', heq, -, -, h, -⟩ := parLoopG_some hp
+    obtain ⟨ty', fd', b', nx', heq, -, -, -, h, -⟩ := parLoopG_some hp
     cases heq
-    exact absurd rfl h
+    exact absurd rfl (h hs)
 
 /-- Colouring is refused inside any OpenMP directive, so the colouring transformation itself never creates a loop
 over colours inside an OpenMP region. -/
@@ -488,60 +585,64 @@ theorem C23_step_keeps_inc (T : Tables) (s s' : Forest) (st : Step) (h : step T 
     hasInc T s' = hasInc T s := by
   cases st with
   | colour i => exact atIdx_hasInc (keepsInc_colourG T) s i Ctx.top s' h
-  | parLoop t i => exact atIdx_hasInc (keepsInc_parLoopG T t) s i Ctx.top s' h
-  | region t tg =>
+  | parLoop t o i => exact atIdx_hasInc (keepsInc_parLoopG T t o) s i Ctx.top s' h
+  | region t o tg =>
     cases tg with
     | nil => simp [step] at h
-    | cons i0 rest => exact atIdx_hasInc (keepsInc_regionG T t i0 _) s i0 Ctx.top s' h
+    | cons i0 rest => exact atIdx_hasInc (keepsInc_regionG T t o i0 _) s i0 Ctx.top s' h
 
 /-! ## Non-vacuity and sanity evaluations -/
 
-/-- one loop over cells, kernel with `gh_inc` on w0 (id 5) and `gh_read` on w3 (id 0) -/
-def exInc : Forest := loop ltCells false (kern true [(4, 5), (1, 0)] nil) nil
-/-- the same with `gh_readinc` -/
-def exReadInc : Forest := loop ltCells false (kern true [(5, 5), (1, 0)] nil) nil
-/-- a discontinuous kernel -/
-def exDisc : Forest := loop ltCells true (kern true [(3, 0), (1, 5)] nil) nil
-
--- hypotheses of C23_invariant are satisfiable by a non-trivial accepted history: colour, then parallelise the
--- colour loop (node 1), result is Safe and passes generation
+-- hypotheses of C23_invariant / C23_holds_partial are satisfiable by a non-trivial accepted history: colour, then
+-- parallelise the colour loop (node 1); the result is Safe and passes generation
 example : noDirs exInc = true := by decide
-example : run Gen.tables exInc [.colour 0, .parLoop .ompParallelDo 1] =
-    some (loop ltColours false (dir dOmpParallelDo (loop ltColour false (kern true [(4, 5), (1, 0)] nil) nil) nil) nil) := by
-  decide
-example : ∃ s, run Gen.tables exInc [.colour 0, .parLoop .ompParallelDo 1] = some s ∧ Safe s ∧ genOK Gen.tables s = true :=
+example : ∀ st ∈ [Step.colour 0, .parLoop .ompParallelDo {} 1], st.seqOk = true := by decide
+example : ∃ s, run Gen.tables exInc [.colour 0, .parLoop .ompParallelDo {} 1] = some s ∧ Safe s ∧ genOK Gen.tables s = true :=
   ⟨loop ltColours false (dir dOmpParallelDo (loop ltColour false (kern true [(4, 5), (1, 0)] nil) nil) nil) nil,
    by decide, by decide, by decide⟩
 -- colour, omp do on the colour loop, parallel region around the omp do *inside* the colours loop
-example : ∃ s, run Gen.tables exReadInc [.colour 0, .parLoop .ompDo 1, .region .ompParallel [1]] = some s ∧
+example : ∃ s, run Gen.tables exReadInc [.colour 0, .parLoop .ompDo {} 1, .region .ompParallel {} [1]] = some s ∧
     Safe s ∧ genOK Gen.tables s = true :=
   ⟨loop ltColours false (dir dOmpParallel (dir dOmpDo (loop ltColour false (kern true [(5, 5), (1, 0)] nil) nil) nil) nil) nil,
    by decide, by decide, by decide⟩
--- parallelising the uncoloured INC / READINC loop is refused by all three transformations
-example : step Gen.tables exInc (.parLoop .ompParallelDo 0) = none := by decide
-example : step Gen.tables exReadInc (.parLoop .ompParallelDo 0) = none := by decide
-example : step Gen.tables exReadInc (.parLoop .ompDo 0) = none := by decide
-example : step Gen.tables exReadInc (.parLoop .accLoop 0) = none := by decide
-example : step Gen.tables exReadInc (.parLoop .genOmpDo 0) = none := by decide
-example : step Gen.tables exInc (.parLoop .genOmpParallelDo 0) = none := by decide
+-- parallelising the uncoloured INC / READINC loop is refused by all five transformations (default options) ...
+example : step Gen.tables exInc (.parLoop .ompParallelDo {} 0) = none := by decide
+example : step Gen.tables exReadInc (.parLoop .ompParallelDo {} 0) = none := by decide
+example : step Gen.tables exReadInc (.parLoop .ompDo {} 0) = none := by decide
+example : step Gen.tables exReadInc (.parLoop .accLoop {} 0) = none := by decide
+example : step Gen.tables exReadInc (.parLoop .genOmpDo {} 0) = none := by decide
+example : step Gen.tables exInc (.parLoop .genOmpParallelDo {} 0) = none := by decide
+-- ... by ACCLoopTrans also with gang/vector, and by the LFRic-specific ones even with "sequential"
+example : step Gen.tables exReadInc (.parLoop .accLoop { gang := true, vector := true } 0) = none := by decide
+example : step Gen.tables exReadInc (.parLoop .ompDo { sequential := true } 0) = none := by decide
+example : step Gen.tables exInc (.parLoop .ompParallelDo { sequential := true } 0) = none := by decide
+-- ACCLoopTrans with sequential (even together with gang/vector) is accepted and emits the serial `acc loop seq`: Safe
+example : step Gen.tables exReadInc (.parLoop .accLoop { sequential := true, vector := true } 0) =
+    some (dir dAccLoopSeq exReadInc nil) := by decide
+example : Safe (dir dAccLoopSeq exReadInc nil) := by decide
+-- had the directive been emitted as a parallel `acc loop` the state would not be Safe (seeded mutation C23-2)
+example : ¬ Safe (dir dAccLoop exReadInc nil) := by decide
+-- collapse: refused on a single loop, accepted on the colours/colour nest when "sequential"
+example : step Gen.tables exDisc (.parLoop .accLoop { collapse := 2 } 0) = none := by decide
 -- hypotheses of C23_refusal_complete are satisfiable
 example : ltCells ≠ ltColour ∧ hasInc Gen.tables (kern true [(5, 5), (1, 0)] nil) = true := by decide
 -- a discontinuous loop is parallelised without colouring and cannot be coloured
-example : (step Gen.tables exDisc (.parLoop .ompParallelDo 0)).isSome = true := by decide
+example : (step Gen.tables exDisc (.parLoop .ompParallelDo {} 0)).isSome = true := by decide
 example : step Gen.tables exDisc (.colour 0) = none := by decide
 -- clause 2 is not vacuous: a parallel region around the loop over colours is accepted by the transformation
 -- but refused by generation; and Safe2 fails there
-example : ∃ s, run Gen.tables exInc [.colour 0, .region .ompParallel [0]] = some s ∧ genOK Gen.tables s = false ∧ ¬ Safe2 s :=
+example : ∃ s, run Gen.tables exInc [.colour 0, .region .ompParallel {} [0]] = some s ∧ genOK Gen.tables s = false ∧ ¬ Safe2 s :=
   ⟨dir dOmpParallel (loop ltColours false (loop ltColour false (kern true [(4, 5), (1, 0)] nil) nil) nil) nil,
    by decide, by decide, by decide⟩
 -- colouring inside an OpenMP region is refused (gh_write kernel on w0: parallel do accepted, then colour refused)
-example : run Gen.tables (loop ltCells false (kern true [(2, 5)] nil) nil) [.parLoop .ompParallelDo 0, .colour 1] = none := by
+example : run Gen.tables (loop ltCells false (kern true [(2, 5)] nil) nil) [.parLoop .ompParallelDo {} 0, .colour 1] = none := by
   decide
--- the unfixed table (INC only) makes the statement false: witness for the READINC finding
+-- the unfixed table (INC only) makes even the partial statement false: witness for the (repaired) READINC defect
 def unfixedTables : Tables := { incAcc := fun a => a == 4, incrementedAcc := fun a => a == 4, redAcc := fun a => a == 6 }
-theorem C23_unfixed_counterexample : ¬ C23_statement unfixedTables := by
+theorem C23_unfixed_counterexample : ¬ C23_statement_partial unfixedTables := by
   intro h
-  have := (h exReadInc (dir dOmpParallelDo exReadInc nil) [.parLoop .ompParallelDo 0] (by decide) (by decide)).1
+  have := (h exReadInc (dir dOmpParallelDo exReadInc nil) [.parLoop .ompParallelDo {} 0] (by decide) (by decide)
+    (by decide)).1
   revert this
   decide
 
